@@ -140,7 +140,12 @@ func c10Requests(c c10Case) (reqs []*Rpc, unary, opens []bool) {
 	}
 	var items []item
 	for i := 0; i < c.Unary; i++ {
-		items = append(items, item{[]*Rpc{c10Env(uint64(100+i), mUnary, "hold", "", []byte(fmt.Sprintf("hold%d", i)))}, true})
+		e := c10Env(uint64(100+i), mUnary, "hold", "", []byte(fmt.Sprintf("hold%d", i)))
+		if i%2 == 0 {
+			// a request that came with a deadline of its own (far away) is cancelled with its connection all the same
+			e.Header.Headers = append(e.Header.Headers, &goatorepo.KeyValue{Key: "grpc-timeout", Value: "1H"})
+		}
+		items = append(items, item{[]*Rpc{e}, true})
 	}
 	for j, m := range c.Modes {
 		tag := fmt.Sprintf("%s%d", m, j)
@@ -153,6 +158,9 @@ func c10Requests(c c10Case) (reqs []*Rpc, unary, opens []bool) {
 			method = mSrvStream
 		}
 		envs := []*Rpc{c10Env(id, method, m, tag, nil)}
+		if j%3 == 1 {
+			envs[0].Header.Headers = append(envs[0].Header.Headers, &goatorepo.KeyValue{Key: "grpc-timeout", Value: "3600S"})
+		}
 		if m == "recv" {
 			envs = append(envs, c10Env(id, method, m, tag, []byte("one message")))
 		}
